@@ -1,6 +1,6 @@
 SPECIFICATION Spec
-CONSTANTS MaxOps = 5
- MaxItems = 2
+CONSTANTS MaxOps = 4
+ MaxItems = 1
  MaxSteps = 2
  AsCoded = FALSE
  Record = FALSE
